@@ -47,11 +47,20 @@ def stats(cases, outs):
 
 
 def classify(case, outs):
-    """F7: the window falls below two datagrams immediately after an MTU increase during recovery."""
+    """F7 (fixed in the repository): the window is below two datagrams only in a run of calls that starts at an
+    MTU update during recovery and contains no on_end_acks, with window() == recovery_window."""
     if outs == qv.PANIC_OUT:
         return None
     ms = C.mtu_track(case)
     bad = [k for k, (ob, m) in enumerate(zip(outs, ms)) if len(ob) > 4 and ob[0] < 2 * m]
-    if bad and all(case[k][0] == 6 and outs[k][2] != 0 and outs[k][0] == outs[k][4] for k in bad):
-        return "bbr-mtu-update-in-recovery"
-    return None
+    if not bad:
+        return None
+    for k in bad:
+        if not (outs[k][2] != 0 and outs[k][0] == outs[k][4]):
+            return None
+        j = k
+        while j > 0 and case[j][0] not in (3, 6):
+            j -= 1
+        if case[j][0] != 6:
+            return None
+    return "bbr-mtu-update-in-recovery"
